@@ -202,8 +202,7 @@ def summarize(r, rundir, truth, want=(), oracles=()):
                        "stats": {l.split(b"\t")[0].decode(): l.split(b"\t")[-1].decode() for l in lines if l.startswith(b"__")}}
     res["table_meta"] = meta
     res["sorted_digests"] = {k: hashlib.sha256(b"\n".join(sorted(v.split(b"\n")))).hexdigest()[:20]
-                             for k, v in files.items() if k.endswith(("read_assignments.tsv", "corrected_reads.bed",
-                                                                       "gene_counts.tsv", "transcript_counts.tsv"))}
+                             for k, v in files.items()}
     if "labels" in want:
         res["labels"] = simrun.event_labels(r["trace"])
     if "trace" in want:
